@@ -8,6 +8,7 @@ import (
 	"os"
 
 	"verif/internal/core"
+	"verif/internal/crash"
 	"verif/internal/muxdiff"
 	"verif/internal/pattern"
 	"verif/internal/qevent"
@@ -30,6 +31,7 @@ var checks = map[string]func(*core.Ctx){
 	"C09": subs.Run,
 	"C10": storesim.RunC10,
 	"C11": storesim.RunC11,
+	"C12": crash.Run,
 	"C13": storesim.RunC13,
 	"C14": storesim.RunC14,
 	"C15": qevent.Run,
@@ -64,6 +66,12 @@ func main() {
 		var seed int64
 		fmt.Sscan(os.Args[4], &seed)
 		reqsim.BatchMain(os.Args[2], os.Args[3], seed)
+		return
+	}
+	if os.Args[1] == "__crash" && len(os.Args) == 6 {
+		var seed int64
+		fmt.Sscan(os.Args[3], &seed)
+		crash.ChildMain(os.Args[2], seed, os.Args[4], os.Args[5])
 		return
 	}
 	prop := os.Args[1]
